@@ -26,6 +26,8 @@ BOUNDS = {
              "programs: request a, request b, one operation out of 14 with symbolic amounts, repeat both requests; all ordered pairs x seeded operation (about 500 programs)",
     "thorough": "same requests; every ordered pair x every operation, plus 6000 seeded programs with two chained operations",
 }
+BOUNDS_ALSO = "; also: 4 requests with the same entries in another order; the mutator with the current caption / '' / None and a second __init__ in three argument forms, on every request (always in, not sampled)"
+BOUNDS = {k_: v_ + BOUNDS_ALSO for k_, v_ in BOUNDS.items()}
 ASSUMPTIONS = ["A-FP for the amounts", "state is discrete: the solver's contribution is that every value-dependent path of each step is covered; "
                "aliasing that needs more than the stated chain depth is outside the claim", "resolution model: a request resolves to (ordered (category,(unit,exp)) map, caption)"]
 CHUNK = 10
